@@ -1,7 +1,623 @@
-//! C08 operations (op names start with `c08.`)
-#[allow(unused_imports)]
+//! C08 operations (op names start with `c08.`): Montgomery forms over operation histories.
+//!
+//!   c08.hist <kind> <n> <modulus> <step;step;…>   kind ∈ dyn dynv const boxed boxedv
+//!   c08.params <kind> <n> <modulus>               kind ∈ dyn dynv const dynfromconst boxedfromconst boxed boxedv
+//!   c08.params_eq <n> <modulus>                   new == new_vartime (fixed), (boxed), fixed fields == boxed fields
+//!   c08.params_eq_const <n> <modulus>             from_const_params == new (fixed), (boxed)
+//!   c08.redc <n> <lower> <upper> <modulus> <k>    public `montgomery_reduction`
+//!   c08.mul_mod <kind> <n> <a> <b> <p>            `Uint::mul_mod` / `BoxedUint::mul_mod`
+//!
+//! NOTE: `core::ops::{Add, Sub, Mul, Neg}` are deliberately NOT imported, so `<T>::add(&a, &b)` is the
+//! inherent method and `a + b` the operator impl.
 use crate::util::*;
+use crypto_bigint::modular::{
+    BoxedMontyForm, BoxedMontyParams, ConstMontyForm, ConstMontyParams, MontyForm, MontyParams, montgomery_reduction,
+};
+use crypto_bigint::{
+    BoxedUint, Concat, Integer, Monty, MontyMultiplier, NonZero, Odd, Split, Square, SquareAssign, Uint, impl_modulus,
+};
+use std::panic::{AssertUnwindSafe, catch_unwind};
+use subtle::ConditionallySelectable;
 
-pub fn dispatch(_op: &str, _a: &[&str]) -> Option<String> {
-    None
+// ------------------------------------------------------------------ compile-time moduli (impl_modulus!)
+// (name, Uint type, limbs, big-endian hex).  tools/gen/c08.py carries the same table.
+/// a computation generic over a compile-time modulus
+trait ConstVisitor {
+    fn visit<P: ConstMontyParams<N>, const N: usize>(self) -> Option<String>;
+}
+
+macro_rules! const_moduli {
+    ($( ($name:ident, $ty:ty, $n:expr, $hex:expr) ),* $(,)?) => {
+        $( impl_modulus!($name, $ty, $hex); )*
+        /// run the visitor for the const modulus identified by (limbs, value)
+        fn with_const_modulus<V: ConstVisitor>(nlimbs: usize, mhex: &str, v: V) -> Option<String> {
+            let key = (nlimbs, norm_hex(mhex));
+            $( if key == ($n as usize, norm_hex($hex)) { return v.visit::<$name, { $n }>(); } )*
+            Some("bad-args".to_string())
+        }
+    };
+}
+
+use crypto_bigint::{U64, U128, U192, U256, U384, U512, U1024, U2048};
+const_moduli! {
+    (M1One, U64, 1, "0000000000000001"),
+    (M1Three, U64, 1, "0000000000000003"),
+    (M1Max, U64, 1, "ffffffffffffffff"),
+    (M1Half, U64, 1, "8000000000000001"),
+    (M1Third, U64, 1, "5555555555555555"),
+    (M1Quarter, U64, 1, "3fffffffffffffff"),
+    (M1Small, U64, 1, "00000000000000f1"),
+    (M2Max, U128, 2, "ffffffffffffffffffffffffffffffff"),
+    (M2Half, U128, 2, "80000000000000000000000000000001"),
+    (M2Third, U128, 2, "55555555555555555555555555555555"),
+    (M2Zhl, U128, 2, "0000000000000000ffffffffffffffc5"),
+    (M2One, U128, 2, "00000000000000000000000000000001"),
+    (M3P192, U192, 3, "fffffffffffffffffffffffffffffffeffffffffffffffff"),
+    (M3Quarter, U192, 3, "3fffffffffffffffffffffffffffffffffffffffffffffff"),
+    (M4P256n, U256, 4, "ffffffff00000000ffffffffffffffffbce6faada7179e84f3b9cac2fc632551"),
+    (M4Half, U256, 4, "8000000000000000000000000000000000000000000000000000000000000001"),
+    (M4Third, U256, 4, "5555555555555555555555555555555555555555555555555555555555555555"),
+    (M4Zhl, U256, 4, "00000000000000000000000000000000d5777c45019673125ad240f83094d425"),
+    (M4Three, U256, 4, "0000000000000000000000000000000000000000000000000000000000000003"),
+    (M4One, U256, 4, "0000000000000000000000000000000000000000000000000000000000000001"),
+    (M6P384, U384, 6, "fffffffffffffffffffffffffffffffffffffffffffffffffffffffffffffffeffffffff0000000000000000ffffffff"),
+    (M8Max, U512, 8, "ffffffffffffffffffffffffffffffffffffffffffffffffffffffffffffffffffffffffffffffffffffffffffffffffffffffffffffffffffffffffffffffff"),
+    (M8Quarter, U512, 8, "3fffffffffffffffffffffffffffffffffffffffffffffffffffffffffffffffffffffffffffffffffffffffffffffffffffffffffffffffffffffffffffffff"),
+    (M16Half, U1024, 16, "8000000000000000000000000000000000000000000000000000000000000000000000000000000000000000000000000000000000000000000000000000000000000000000000000000000000000000000000000000000000000000000000000000000000000000000000000000000000000000000000000000000000000001"),
+    (M32Third, U2048, 32, "55555555555555555555555555555555555555555555555555555555555555555555555555555555555555555555555555555555555555555555555555555555555555555555555555555555555555555555555555555555555555555555555555555555555555555555555555555555555555555555555555555555555555555555555555555555555555555555555555555555555555555555555555555555555555555555555555555555555555555555555555555555555555555555555555555555555555555555555555555555555555555555555555555555555555555555555555555555555555555555555555555555555555555555555555555555"),
+}
+
+fn norm_hex(s: &str) -> String {
+    let t = s.trim_start_matches('0').to_ascii_lowercase();
+    if t.is_empty() { "0".to_string() } else { t }
+}
+
+/// dispatch over the widths that have `Concat` (needed by `MontyParams::new`)
+macro_rules! with_nw {
+    ($n:expr, $f:ident, $($args:expr),*) => {
+        match $n {
+            1 => $f::<1, 2>($($args),*),
+            2 => $f::<2, 4>($($args),*),
+            3 => $f::<3, 6>($($args),*),
+            4 => $f::<4, 8>($($args),*),
+            6 => $f::<6, 12>($($args),*),
+            8 => $f::<8, 16>($($args),*),
+            16 => $f::<16, 32>($($args),*),
+            32 => $f::<32, 64>($($args),*),
+            _ => Some("unsupported-width".to_string()),
+        }
+    };
+}
+
+// ------------------------------------------------------------------ history steps
+
+struct Step<'a> {
+    name: &'a str,
+    form: &'a str,
+    args: Vec<&'a str>,
+}
+
+fn parse_steps(s: &str) -> Option<Vec<Step<'_>>> {
+    s.split(';')
+        .map(|st| {
+            let mut it = st.split(',');
+            let nf = it.next()?;
+            let (name, form) = match nf.split_once('.') {
+                Some((a, b)) => (a, b),
+                None => (nf, ""),
+            };
+            Some(Step { name, form, args: it.collect() })
+        })
+        .collect()
+}
+
+fn idx(s: &str, len: usize) -> Option<usize> {
+    let i = s.parse::<usize>().ok()?;
+    if i < len { Some(i) } else { None }
+}
+
+/// the five operator surface forms + inherent method + the two assigning forms of a binary operation
+macro_rules! bin_forms {
+    ($T:ty, $store:ident, $st:ident, $meth:ident, $op:tt, $opa:tt) => {(|| {
+        if $st.args.len() != 2 { return Err(()); }
+        let i = idx($st.args[0], $store.len()).ok_or(())?;
+        let j = idx($st.args[1], $store.len()).ok_or(())?;
+        let (a, b) = ($store[i].clone(), $store[j].clone());
+        match $st.form {
+            "m" => { $store.push(<$T>::$meth(&a, &b)); Ok($store.len() - 1) }
+            "rr" => { $store.push(&a $op &b); Ok($store.len() - 1) }
+            "rv" => { $store.push(&a $op b); Ok($store.len() - 1) }
+            "vr" => { $store.push(a $op &b); Ok($store.len() - 1) }
+            "vv" => { $store.push(a $op b); Ok($store.len() - 1) }
+            "a" => { let mut x = a; x $opa &b; $store[i] = x; Ok(i) }
+            "av" => { let mut x = a; x $opa b; $store[i] = x; Ok(i) }
+            _ => Err(()),
+        }
+    })()};
+}
+
+/// steps whose surface syntax is the same for all three representations
+macro_rules! shared_step {
+    ($T:ty, $store:ident, $st:ident) => {
+        match $st.name {
+            "add" => Some(bin_forms!($T, $store, $st, add, +, +=)),
+            "sub" => Some(bin_forms!($T, $store, $st, sub, -, -=)),
+            "mul" if $st.form != "mm" => Some(bin_forms!($T, $store, $st, mul, *, *=)),
+            "neg" if $st.args.len() == 1 => Some((|| {
+                let i = idx($st.args[0], $store.len()).ok_or(())?;
+                let a = $store[i].clone();
+                let r = match $st.form {
+                    "m" => <$T>::neg(&a),
+                    "v" => -a,
+                    "r" => -&a,
+                    _ => return Err(()),
+                };
+                $store.push(r);
+                Ok($store.len() - 1)
+            })()),
+            "square" if $st.args.len() == 1 && ($st.form == "m" || $st.form == "t") => Some((|| {
+                let i = idx($st.args[0], $store.len()).ok_or(())?;
+                let a = $store[i].clone();
+                let r = if $st.form == "m" { <$T>::square(&a) } else { Square::square(&a) };
+                $store.push(r);
+                Ok($store.len() - 1)
+            })()),
+            "double" if $st.args.len() == 1 && $st.form == "" => Some((|| {
+                let i = idx($st.args[0], $store.len()).ok_or(())?;
+                let r = <$T>::double(&$store[i]);
+                $store.push(r);
+                Ok($store.len() - 1)
+            })()),
+            "div2" if $st.args.len() == 1 && $st.form == "" => Some((|| {
+                let i = idx($st.args[0], $store.len()).ok_or(())?;
+                let r = <$T>::div_by_2(&$store[i]);
+                $store.push(r);
+                Ok($store.len() - 1)
+            })()),
+            _ => None,
+        }
+    };
+}
+
+/// steps available through the `Monty` / `MontyMultiplier` / `SquareAssign` traits (runtime and boxed forms)
+macro_rules! monty_trait_step {
+    ($T:ty, $store:ident, $st:ident, $params:expr) => {
+        match ($st.name, $st.form) {
+            ("double", "t") | ("div2", "t") if $st.args.len() == 1 => Some((|| {
+                let i = idx($st.args[0], $store.len()).ok_or(())?;
+                let r = if $st.name == "double" { Monty::double(&$store[i]) } else { Monty::div_by_2(&$store[i]) };
+                $store.push(r);
+                Ok($store.len() - 1)
+            })()),
+            ("div2", "a") if $st.args.len() == 1 => Some((|| {
+                let i = idx($st.args[0], $store.len()).ok_or(())?;
+                Monty::div_by_2_assign(&mut $store[i]);
+                Ok(i)
+            })()),
+            ("square", "a") if $st.args.len() == 1 => Some((|| {
+                let i = idx($st.args[0], $store.len()).ok_or(())?;
+                SquareAssign::square_assign(&mut $store[i]);
+                Ok(i)
+            })()),
+            ("square", "mm") if $st.args.len() == 1 => Some((|| {
+                let i = idx($st.args[0], $store.len()).ok_or(())?;
+                let p = $params;
+                let mut mm = <<$T as Monty>::Multiplier<'_>>::from(&p);
+                mm.square_assign(&mut $store[i]);
+                Ok(i)
+            })()),
+            ("mul", "mm") if $st.args.len() == 2 => Some((|| {
+                let i = idx($st.args[0], $store.len()).ok_or(())?;
+                let j = idx($st.args[1], $store.len()).ok_or(())?;
+                let rhs = $store[j].clone();
+                let p = $params;
+                let mut mm = <<$T as Monty>::Multiplier<'_>>::from(&p);
+                mm.mul_assign(&mut $store[i], &rhs);
+                Ok(i)
+            })()),
+            ("copy", "") if $st.args.len() == 2 => Some((|| {
+                let i = idx($st.args[0], $store.len()).ok_or(())?;
+                let j = idx($st.args[1], $store.len()).ok_or(())?;
+                let src = $store[j].clone();
+                Monty::copy_montgomery_from(&mut $store[i], &src);
+                Ok(i)
+            })()),
+            _ => None,
+        }
+    };
+}
+
+macro_rules! select_step {
+    ($T:ty, $store:ident, $st:ident) => {
+        if $st.name == "select" && $st.args.len() == 3 {
+            Some((|| {
+                let i = idx($st.args[0], $store.len()).ok_or(())?;
+                let j = idx($st.args[1], $store.len()).ok_or(())?;
+                let c = tochoice($st.args[2]).ok_or(())?;
+                let r = <$T>::conditional_select(&$store[i], &$store[j], c);
+                $store.push(r);
+                Ok($store.len() - 1)
+            })())
+        } else {
+            None
+        }
+    };
+}
+
+type StepRes = Result<usize, ()>;
+
+/// Run one step under `catch_unwind`; `Ok(Some(tok))` = output token, `Ok(None)` = bad args, `Err` = panic.
+fn guarded<F: FnOnce() -> Option<String>>(f: F) -> Result<Option<String>, ()> {
+    catch_unwind(AssertUnwindSafe(f)).map_err(|_| ())
+}
+
+// ---- boxed
+fn run_boxed(mut store: Vec<BoxedMontyForm>, params: BoxedMontyParams, steps: &[Step<'_>], out: &mut Vec<String>) -> Option<()> {
+    let n = params.modulus().as_ref().nlimbs();
+    for st in steps {
+        let r = guarded(|| {
+            let res: StepRes = if let Some(r) = shared_step!(BoxedMontyForm, store, st) {
+                r
+            } else if let Some(r) = monty_trait_step!(BoxedMontyForm, store, st, params.clone()) {
+                r
+            } else {
+                match (st.name, st.form, st.args.as_slice()) {
+                    ("new", "", [v]) => boxed(v, n).map(|v| {
+                        store.push(BoxedMontyForm::new(v, params.clone()));
+                        store.len() - 1
+                    }).ok_or(()),
+                    ("zero", "", []) => { store.push(BoxedMontyForm::zero(params.clone())); Ok(store.len() - 1) }
+                    ("one", "", []) => { store.push(BoxedMontyForm::one(params.clone())); Ok(store.len() - 1) }
+                    ("div2", "ai", [i]) => idx(i, store.len()).map(|i| { store[i].div_by_2_assign(); i }).ok_or(()),
+                    ("conv", "", []) if !store.is_empty() => Ok(store.len() - 1),
+                    _ => Err(()),
+                }
+            };
+            let i = res.ok()?;
+            let v = &store[i];
+            let form = bhex(v.as_montgomery());
+            let retr = bhex(&v.retrieve());
+            Some(format!("{form}:{retr}"))
+        });
+        match r {
+            Ok(Some(tok)) => out.push(tok),
+            Ok(None) => return None,
+            Err(()) => { out.push("panic".into()); return Some(()); }
+        }
+    }
+    Some(())
+}
+
+// ---- runtime modulus
+fn run_dyn<const N: usize>(
+    mut store: Vec<MontyForm<N>>,
+    params: MontyParams<N>,
+    from_const: Option<BoxedMontyParams>,
+    steps: &[Step<'_>],
+    out: &mut Vec<String>,
+) -> Option<()> {
+    for (k, st) in steps.iter().enumerate() {
+        if st.name == "conv" {
+            if store.is_empty() { return None; }
+            // dyn -> boxed: the Montgomery representation is carried over; parameters come from the const
+            // parameters when the history started there, else from `BoxedMontyParams::new`.
+            let r = guarded(|| {
+                let bp = match &from_const {
+                    Some(p) => p.clone(),
+                    None => BoxedMontyParams::new(Odd::<BoxedUint>::from(params.modulus())),
+                };
+                let bstore: Vec<BoxedMontyForm> = store
+                    .iter()
+                    .map(|v| BoxedMontyForm::from_montgomery(BoxedUint::from(v.to_montgomery()), bp.clone()))
+                    .collect();
+                let v = bstore.last().unwrap();
+                out.push(format!("{}:{}", bhex(v.as_montgomery()), bhex(&v.retrieve())));
+                run_boxed(bstore, bp, &steps[k + 1..], out).map(|_| String::new())
+            });
+            return match r {
+                Ok(Some(_)) => Some(()),
+                Ok(None) => None,
+                Err(()) => { out.push("panic".into()); Some(()) }
+            };
+        }
+        let r = guarded(|| {
+            let res: StepRes = if let Some(r) = shared_step!(MontyForm<N>, store, st) {
+                r
+            } else if let Some(r) = monty_trait_step!(MontyForm<N>, store, st, params) {
+                r
+            } else if let Some(r) = select_step!(MontyForm<N>, store, st) {
+                r
+            } else {
+                match (st.name, st.form, st.args.as_slice()) {
+                    ("new", "", [v]) => uint::<N>(v).map(|v| { store.push(MontyForm::new(&v, params)); store.len() - 1 }).ok_or(()),
+                    ("zero", "", []) => { store.push(MontyForm::zero(params)); Ok(store.len() - 1) }
+                    ("one", "", []) => { store.push(MontyForm::one(params)); Ok(store.len() - 1) }
+                    _ => Err(()),
+                }
+            };
+            let i = res.ok()?;
+            let v = &store[i];
+            Some(format!("{}:{}", uhex(v.as_montgomery()), uhex(&v.retrieve())))
+        });
+        match r {
+            Ok(Some(tok)) => out.push(tok),
+            Ok(None) => return None,
+            Err(()) => { out.push("panic".into()); return Some(()); }
+        }
+    }
+    Some(())
+}
+
+// ---- compile-time modulus
+fn run_const<P: ConstMontyParams<N>, const N: usize>(steps: &[Step<'_>], out: &mut Vec<String>) -> Option<()> {
+    let mut store: Vec<ConstMontyForm<P, N>> = Vec::new();
+    for (k, st) in steps.iter().enumerate() {
+        if st.name == "conv" {
+            if store.is_empty() { return None; }
+            let r = guarded(|| {
+                let dstore: Vec<MontyForm<N>> = store.iter().map(MontyForm::from).collect();
+                let v = dstore.last().unwrap();
+                out.push(format!("{}:{}", uhex(v.as_montgomery()), uhex(&v.retrieve())));
+                let params = MontyParams::<N>::from_const_params::<P>();
+                let bp = BoxedMontyParams::from_const_params::<N, P>();
+                run_dyn::<N>(dstore, params, Some(bp), &steps[k + 1..], out).map(|_| String::new())
+            });
+            return match r {
+                Ok(Some(_)) => Some(()),
+                Ok(None) => None,
+                Err(()) => { out.push("panic".into()); Some(()) }
+            };
+        }
+        let r = guarded(|| {
+            let res: StepRes = if let Some(r) = shared_step!(ConstMontyForm<P, N>, store, st) {
+                r
+            } else if let Some(r) = select_step!(ConstMontyForm<P, N>, store, st) {
+                r
+            } else {
+                match (st.name, st.form, st.args.as_slice()) {
+                    ("new", "", [v]) => uint::<N>(v).map(|v| { store.push(ConstMontyForm::<P, N>::new(&v)); store.len() - 1 }).ok_or(()),
+                    ("zero", "", []) => { store.push(ConstMontyForm::<P, N>::ZERO); Ok(store.len() - 1) }
+                    ("one", "", []) => { store.push(ConstMontyForm::<P, N>::ONE); Ok(store.len() - 1) }
+                    _ => Err(()),
+                }
+            };
+            let i = res.ok()?;
+            let v = &store[i];
+            Some(format!("{}:{}", uhex(v.as_montgomery()), uhex(&v.retrieve())))
+        });
+        match r {
+            Ok(Some(tok)) => out.push(tok),
+            Ok(None) => return None,
+            Err(()) => { out.push("panic".into()); return Some(()); }
+        }
+    }
+    Some(())
+}
+
+fn finish(m: &str, ok: Option<()>, out: Vec<String>) -> Option<String> {
+    ok?;
+    let mut s = format!("mod={}", norm_hex(m));
+    for t in out {
+        s.push(' ');
+        s.push_str(&t);
+    }
+    Some(s)
+}
+
+fn hist_dyn<const N: usize, const W: usize>(vartime: bool, m: &str, steps: &[Step<'_>]) -> Option<String>
+where
+    Uint<N>: Concat<Output = Uint<W>>,
+    Uint<W>: Split<Output = Uint<N>>,
+{
+    let modulus: Option<Odd<Uint<N>>> = Odd::new(arg!(uint::<N>(m))).into();
+    let modulus = arg!(modulus);
+    let mut out = Vec::new();
+    let ok = match guarded(|| {
+        let params = if vartime { MontyParams::new_vartime(modulus) } else { MontyParams::new(modulus) };
+        run_dyn::<N>(Vec::new(), params, None, steps, &mut out).map(|_| String::new())
+    }) {
+        Ok(Some(_)) => Some(()),
+        Ok(None) => None,
+        Err(()) => { out.push("panic".into()); Some(()) }
+    };
+    finish(m, ok, out).or(Some(BAD.to_string()))
+}
+
+struct HistConst<'a, 'b>(&'a str, &'a [Step<'b>]);
+impl ConstVisitor for HistConst<'_, '_> {
+    fn visit<P: ConstMontyParams<N>, const N: usize>(self) -> Option<String> {
+        let mut out = Vec::new();
+        let ok = run_const::<P, N>(self.1, &mut out);
+        finish(self.0, ok, out).or(Some(BAD.to_string()))
+    }
+}
+
+fn hist_boxed(vartime: bool, n: usize, m: &str, steps: &[Step<'_>]) -> Option<String> {
+    let modulus: Option<Odd<BoxedUint>> = Odd::new(arg!(boxed(m, n))).into();
+    let modulus = arg!(modulus);
+    let mut out = Vec::new();
+    let ok = match guarded(|| {
+        let params = if vartime { BoxedMontyParams::new_vartime(modulus) } else { BoxedMontyParams::new(modulus) };
+        run_boxed(Vec::new(), params, steps, &mut out).map(|_| String::new())
+    }) {
+        Ok(Some(_)) => Some(()),
+        Ok(None) => None,
+        Err(()) => { out.push("panic".into()); Some(()) }
+    };
+    finish(m, ok, out).or(Some(BAD.to_string()))
+}
+
+// ------------------------------------------------------------------ parameters
+
+/// pull `field: …(0xHEX)` or `field: DEC` out of the derived `Debug` text of a params struct
+/// (the fields are private and have no accessors; see notes/C08.md "requests to the integrator")
+fn dbg_field(dbg: &str, field: &str) -> Option<String> {
+    let key = format!(" {field}: ");
+    let at = dbg.find(&key)? + key.len();
+    let rest = &dbg[at..];
+    if let Some(hx) = rest.find("0x") {
+        let end_plain = rest.find([',', '}']).unwrap_or(rest.len());
+        if hx < end_plain {
+            let h = &rest[hx + 2..];
+            let end = h.find(|c: char| !c.is_ascii_hexdigit()).unwrap_or(h.len());
+            return Some(norm_hex(&h[..end]));
+        }
+    }
+    let end = rest.find(|c: char| !c.is_ascii_digit()).unwrap_or(rest.len());
+    Some(rest[..end].to_string())
+}
+
+fn params_line(dbg: &str) -> Option<String> {
+    Some(format!(
+        "mod={} one={} r2={} r3={} k={} lz={}",
+        dbg_field(dbg, "modulus")?,
+        dbg_field(dbg, "one")?,
+        dbg_field(dbg, "r2")?,
+        dbg_field(dbg, "r3")?,
+        dbg_field(dbg, "mod_neg_inv")?,
+        dbg_field(dbg, "mod_leading_zeros")?
+    ))
+}
+
+fn params_dyn<const N: usize, const W: usize>(kind: &str, m: &str) -> Option<String>
+where
+    Uint<N>: Concat<Output = Uint<W>>,
+    Uint<W>: Split<Output = Uint<N>>,
+{
+    let modulus: Option<Odd<Uint<N>>> = Odd::new(arg!(uint::<N>(m))).into();
+    let modulus = arg!(modulus);
+    let p = if kind == "dynv" { MontyParams::new_vartime(modulus) } else { MontyParams::new(modulus) };
+    params_line(&format!("{p:?}")).or(Some(BAD.to_string()))
+}
+
+fn params_boxed(kind: &str, n: usize, m: &str) -> Option<String> {
+    let modulus: Option<Odd<BoxedUint>> = Odd::new(arg!(boxed(m, n))).into();
+    let modulus = arg!(modulus);
+    let p = if kind == "boxedv" { BoxedMontyParams::new_vartime(modulus) } else { BoxedMontyParams::new(modulus) };
+    params_line(&format!("{p:?}")).or(Some(BAD.to_string()))
+}
+
+struct ParamsConst<'a>(&'a str);
+impl ConstVisitor for ParamsConst<'_> {
+    fn visit<P: ConstMontyParams<N>, const N: usize>(self) -> Option<String> {
+        params_const::<P, N>(self.0)
+    }
+}
+fn params_const<P: ConstMontyParams<N>, const N: usize>(kind: &str) -> Option<String> {
+    match kind {
+        "const" => Some(format!(
+            "mod={} one={} r2={} r3={} k={} lz={}",
+            uhex(P::MODULUS.as_ref()),
+            uhex(&P::ONE),
+            uhex(&P::R2),
+            uhex(&P::R3),
+            lhex(P::MOD_NEG_INV),
+            P::MOD_LEADING_ZEROS
+        )),
+        "dynfromconst" => params_line(&format!("{:?}", MontyParams::<N>::from_const_params::<P>())),
+        "boxedfromconst" => params_line(&format!("{:?}", BoxedMontyParams::from_const_params::<N, P>())),
+        _ => None,
+    }
+    .or(Some(BAD.to_string()))
+}
+
+fn params_eq<const N: usize, const W: usize>(m: &str) -> Option<String>
+where
+    Uint<N>: Concat<Output = Uint<W>>,
+    Uint<W>: Split<Output = Uint<N>>,
+{
+    let modulus: Option<Odd<Uint<N>>> = Odd::new(arg!(uint::<N>(m))).into();
+    let modulus = arg!(modulus);
+    let (a, b) = (MontyParams::new(modulus), MontyParams::new_vartime(modulus));
+    let bm = Odd::<BoxedUint>::from(&modulus);
+    let (c, d) = (BoxedMontyParams::new(bm.clone()), BoxedMontyParams::new_vartime(bm));
+    let fields = |s: String| params_line(&s);
+    let cross = fields(format!("{a:?}")) == fields(format!("{c:?}"));
+    Some(format!("{} {} {}", bit(a == b), bit(c == d), bit(cross)))
+}
+
+struct ParamsEqConst;
+impl ConstVisitor for ParamsEqConst {
+    fn visit<P: ConstMontyParams<N>, const N: usize>(self) -> Option<String> {
+        params_eq_const::<P, N>()
+    }
+}
+fn params_eq_const<P: ConstMontyParams<N>, const N: usize>() -> Option<String> {
+    let a = MontyParams::<N>::from_const_params::<P>();
+    let b = MontyParams::<N>::new_vartime(P::MODULUS);
+    let c = BoxedMontyParams::from_const_params::<N, P>();
+    let d = BoxedMontyParams::new(Odd::<BoxedUint>::from(&P::MODULUS));
+    Some(format!("{} {}", bit(a == b), bit(c == d)))
+}
+
+// ------------------------------------------------------------------ single operations
+
+fn redc<const N: usize>(lo: &str, hi: &str, m: &str, k: &str) -> Option<String> {
+    let modulus: Option<Odd<Uint<N>>> = Odd::new(arg!(uint::<N>(m))).into();
+    let modulus = arg!(modulus);
+    let r = montgomery_reduction(&(arg!(uint::<N>(lo)), arg!(uint::<N>(hi))), &modulus, arg!(limb(k)));
+    Some(uhex(&r))
+}
+
+fn mul_mod_fixed<const N: usize, const W: usize>(a: &str, b: &str, p: &str) -> Option<String>
+where
+    Uint<N>: Concat<Output = Uint<W>>,
+    Uint<W>: Split<Output = Uint<N>>,
+{
+    let p: Option<NonZero<Uint<N>>> = NonZero::new(arg!(uint::<N>(p))).into();
+    Some(uhex(&arg!(uint::<N>(a)).mul_mod(&arg!(uint::<N>(b)), &arg!(p))))
+}
+
+pub fn dispatch(op: &str, a: &[&str]) -> Option<String> {
+    match (op, a) {
+        ("c08.hist", [kind, n, m, ops]) => {
+            let n = arg!(dec(n));
+            let steps = arg!(parse_steps(ops));
+            let steps = steps.as_slice();
+            match *kind {
+                "dyn" => with_nw!(n, hist_dyn, false, m, steps),
+                "dynv" => with_nw!(n, hist_dyn, true, m, steps),
+                "const" => with_const_modulus(n, m, HistConst(m, steps)),
+                "boxed" => hist_boxed(false, n, m, steps),
+                "boxedv" => hist_boxed(true, n, m, steps),
+                _ => Some(BAD.to_string()),
+            }
+        }
+        ("c08.params", [kind, n, m]) => {
+            let n = arg!(dec(n));
+            match *kind {
+                "dyn" | "dynv" => with_nw!(n, params_dyn, kind, m),
+                "boxed" | "boxedv" => params_boxed(kind, n, m),
+                "const" | "dynfromconst" | "boxedfromconst" => with_const_modulus(n, m, ParamsConst(kind)),
+                _ => Some(BAD.to_string()),
+            }
+        }
+        ("c08.params_eq", [n, m]) => {
+            let n = arg!(dec(n));
+            with_nw!(n, params_eq, m)
+        }
+        ("c08.params_eq_const", [n, m]) => {
+            let n = arg!(dec(n));
+            with_const_modulus(n, m, ParamsEqConst)
+        }
+        ("c08.redc", [n, lo, hi, m, k]) => {
+            let n = arg!(dec(n));
+            with_n!(n, redc, lo, hi, m, k)
+        }
+        ("c08.mul_mod", [kind, n, x, y, p]) => {
+            let n = arg!(dec(n));
+            match *kind {
+                "dyn" => with_nw!(n, mul_mod_fixed, x, y, p),
+                "boxed" => {
+                    let (x, y, p) = (arg!(boxed(x, n)), arg!(boxed(y, n)), arg!(boxed(p, n)));
+                    if !bool::from(p.is_odd()) {
+                        return Some(BAD.to_string());
+                    }
+                    Some(bhex(&x.mul_mod(&y, &p)))
+                }
+                _ => Some(BAD.to_string()),
+            }
+        }
+        _ => None,
+    }
 }
